@@ -18,6 +18,7 @@ EXPLANATION = (
     ' (R5) sibling partition of negated(); (R6) the digits of a suffixed integer are re-wrapped in the variant untyped_integer builds and converted by typed_literal, i.e. `300u8` and `300<u8>` share one digit evaluator and one conversion.'
     ' (R7) based-literal evaluators parse with <T>::from_str_radix where T is the payload type of the Value variant they build, without a cast.'
     " (R8) float-valued literal evaluators (float, integer, scientific) return the result of str::parse::<f64>() on text spelled from the literal's tokens; float arithmetic between the digits and the result is allowed only under a guard on the exponent's fractional digits (no decimal spelling exists there)."
+    ' (R9) rational(): numerator and denominator are parsed with parse::<i64>() and reach R64::new without a cast or a detour through f64.'
 )
 RADIX = {"Hexadecimal": ("0x", "16"), "Octal": ("0o", "8"), "Binary": ("0b", "2"), "Decimal": ("0d", "10")}
 
@@ -270,3 +271,24 @@ def run_r8(F, rep):
                       "being the nearest f64 of its spelling" % (name, render(e)[:70], "" if not frac_vars else " on paths where the exponent has no fractional digits"),
                       "%s (mech_interpreter.lib)" % name, sample={"fn": name, "arithmetic": render(e)[:70], "guard_vars": sorted(frac_vars)})
     rep.floor("C13-R8", "parse::<f64>() sites in the float evaluators", n_parse, 3)
+    run_r9(F, rep)
+
+
+def run_r9(F, rep):
+    """C13-R9: rational literals are parsed exactly"""
+    rep.rule("C13-R9", "rational(): numerator and denominator are parsed with str::parse::<i64>() - the component type of R64 - and reach R64::new without a cast or a detour through "
+                      "another numeric type (parsing as f64 rounds parts above 2^53 and saturates parts wider than i64 instead of rejecting them)")
+    its = [it for it in F.syn("mech_interpreter.lib") if it["k"] == "fn" and it["name"] == "rational" and it.get("mod", "").endswith("literals") and it.get("body")]
+    if not rep.check(len(its) == 1, "C13-R9", "anchor:rational", "interpreter::literals::rational not found (%d)" % len(its)):
+        return
+    body = its[0]["body"]
+    parses = [re.sub(r"[:<>\s]", "", m[3] or "") for m in find(body, "mcall") if m[2] == "parse"]
+    casts = [render(c)[:40] for c in find(body, "cast")]
+    radix = [path_of(c[1]) for c in find(body, "call") if (path_of(c[1]) or "").endswith("from_str_radix")]
+    types = sorted(set(parses) | {p.split("::")[0] for p in radix})
+    ok = (len(parses) + len(radix)) >= 2 and types == ["i64"] and not casts
+    rep.check(ok, "C13-R9", "rational:exact-parts" if ok else "rational:parts-parsed-as-%s%s" % ("+".join(types) or "nothing", "-then-cast" if casts else ""),
+              "rational() parses its parts as %s%s: a numerator or denominator that f64 cannot hold exactly (>= 2^53) becomes another number, and one wider than i64 is no longer rejected" % (
+                  types, (" and casts " + ", ".join(casts)) if casts else ""), "rational (mech_interpreter.lib)", sample={"parsed_as": types, "casts": casts})
+    news = [c for c in find(body, "call") if (path_of(c[1]) or "").endswith("R64::new")]
+    rep.floor("C13-R9", "R64::new constructions in rational()", len(news), 1)
